@@ -152,7 +152,9 @@ func checkC05(p *core.Program, r *core.Report) {
 	}
 	sh := eff.Analyse(g, all, map[ssa.Value]string{}, func(gl *ssa.Global) bool { return isTable[gl] })
 	nW := 0
-	for _, w := range sh.Writes(func(callee *ssa.Function, com *ssa.CallCommon) bool { return true /* external hand-offs are reads (API calls) */ }) {
+	for _, w := range sh.Writes(func(callee *ssa.Function, com *ssa.CallCommon) bool {
+		return true /* external hand-offs are reads (API calls) */
+	}) {
 		if w.Fn.Name() == "init" || w.Fn.Synthetic != "" {
 			continue
 		}
@@ -323,6 +325,12 @@ func checkOwnership(p *core.Program, r *core.Report, gadgets []*gadgetInfo, mut 
 							}
 						}
 						// phi operands: the slice must not be the loop's own carried value *and* read after the call in the body
+						// the gadget value itself must not be read again (as a whole, for another call, or field-wise) after the call
+						// unless the in-place field was re-assigned on the way: the callee's writes went to storage the holder still
+						// points to under compilation, but to a private copy under extraction
+						for _, at := range staleHolderReads(call, alloc, fa.Field) {
+							later = append(later, p.Pos(at.Pos())+" (through the gadget value, whose field "+fname+" was not re-assigned since the call)")
+						}
 						r.Check(len(later) == 0, rule, cn, p.Pos(call.Pos()), "the slice is not used by the caller after the in-place call",
 							"the caller reads the slice at "+strings.Join(later, ", ")+" after handing it to a gadget that overwrites it in place: under compilation it sees the callee's writes (the extracted Lean model, which deep-copies gadget inputs, does not)")
 					}
@@ -332,6 +340,60 @@ func checkOwnership(p *core.Program, r *core.Report, gadgets []*gadgetInfo, mut 
 	}
 	r.Count("in-place call sites", n)
 	r.Floor("in-place call sites", 5)
+}
+
+// staleHolderReads: reads of holder.field (or of the whole holder struct) reachable from the call without passing a store to
+// holder.field or the holder's own allocation (a fresh object per iteration).
+func staleHolderReads(call *ssa.Call, holder *ssa.Alloc, field int) []ssa.Instruction {
+	kills := map[ssa.Instruction]bool{holder: true}
+	reads := map[ssa.Instruction]bool{}
+	for _, ref := range *holder.Referrers() {
+		switch x := ref.(type) {
+		case *ssa.FieldAddr:
+			if x.Field != field {
+				continue
+			}
+			for _, fr := range *x.Referrers() {
+				switch y := fr.(type) {
+				case *ssa.Store:
+					if y.Addr == x {
+						kills[y] = true
+					}
+				case *ssa.UnOp:
+					reads[y] = true
+				}
+			}
+		case *ssa.UnOp:
+			reads[x] = true
+		case *ssa.Store:
+			if x.Addr == holder {
+				kills[x] = true
+			}
+		}
+	}
+	var out []ssa.Instruction
+	seen := map[*ssa.BasicBlock]bool{}
+	var walk func(b *ssa.BasicBlock, from int)
+	walk = func(b *ssa.BasicBlock, from int) {
+		for i := from; i < len(b.Instrs); i++ {
+			in := b.Instrs[i]
+			if kills[in] {
+				return
+			}
+			if reads[in] {
+				out = append(out, in)
+				return
+			}
+		}
+		for _, s := range b.Succs {
+			if !seen[s] {
+				seen[s] = true
+				walk(s, 0)
+			}
+		}
+	}
+	walk(call.Block(), indexOf(call.Block(), call)+1)
+	return out
 }
 
 // reachableAfterUntil: blocks reachable from the successors of in's block without entering stop.
